@@ -92,26 +92,6 @@ class CompleteWorkflowHandler(StabilizeHandler[CompleteWorkflow]):
 
             logger.info("Execution %s completed with status %s", execution.id, status)
 
-            # Record event if event recorder is configured
-            if self.event_recorder:
-                self.set_event_context(execution.id)
-                if status == WorkflowStatus.SUCCEEDED:
-                    self.event_recorder.record_workflow_completed(
-                        execution,
-                        source_handler="CompleteWorkflowHandler",
-                    )
-                elif status == WorkflowStatus.CANCELED:
-                    self.event_recorder.record_workflow_canceled(
-                        execution,
-                        source_handler="CompleteWorkflowHandler",
-                    )
-                else:
-                    self.event_recorder.record_workflow_failed(
-                        execution,
-                        error=f"Workflow ended with status {status.name}",
-                        source_handler="CompleteWorkflowHandler",
-                    )
-
             # Collect running stages to cancel if not successful
             running_stages = []
             if status != WorkflowStatus.SUCCEEDED:
@@ -124,6 +104,28 @@ class CompleteWorkflowHandler(StabilizeHandler[CompleteWorkflow]):
             # Atomic: update execution status + cancel stages + start waiting workflows
             with self.repository.transaction(self.queue) as txn:
                 txn.update_workflow_status(execution)
+
+                # Record the outcome event inside the transaction: it joins the
+                # commit that stores the outcome (no phantom or duplicate event
+                # when this commit fails and the message is redelivered).
+                if self.event_recorder:
+                    self.set_event_context(execution.id)
+                    if status == WorkflowStatus.SUCCEEDED:
+                        self.event_recorder.record_workflow_completed(
+                            execution,
+                            source_handler="CompleteWorkflowHandler",
+                        )
+                    elif status == WorkflowStatus.CANCELED:
+                        self.event_recorder.record_workflow_canceled(
+                            execution,
+                            source_handler="CompleteWorkflowHandler",
+                        )
+                    else:
+                        self.event_recorder.record_workflow_failed(
+                            execution,
+                            error=f"Workflow ended with status {status.name}",
+                            source_handler="CompleteWorkflowHandler",
+                        )
 
                 # Message deduplication
                 if message.message_id:
